@@ -2,7 +2,7 @@
 ProgressState::{eta, duration, per_sec} (src/state.rs) over the reals (R6): finite and
 non-negative, between zero and the largest observed rate, exact for steady progress whatever
 the cadence, forgetful after reset / rewind, eta = remaining / rate, duration = elapsed + eta (C09)."""
-from vlib.unit import Unit, Fn, Decl, Raw, Lemma, Rw, RwFn
+from vlib.unit import Unit, Fn, Decl, Raw, Lemma, Rw, RwFn, r6_float_literals
 from specs import contracts as K
 
 # R6: `EXPR as f64` on an unsigned integer path / call expression
@@ -288,5 +288,23 @@ UNIT = Unit(
                     ("C09-per-sec-finite-nonnegative", "self.status is InProgress && now_model().ns() > self.est.start_time.ns() ==> r.fin() && r.r() >= 0real"),
                     ("C09-per-sec-finished-is-average", "!(self.status is InProgress) ==> r.r() == self.pos.pos@ as real / gap(self.started, now_model())"),
                     ("C09-per-sec-finished-finite", "!(self.status is InProgress) && now_model().ns() > self.started.ns() ==> r.fin() && r.r() >= 0real")]),
+        # the completed fraction over the reals (its f32 side: full-domain Kani harness of the thorough tier)
+        Fn("src/state.rs", "ProgressState", "fraction", ret="r", sig_rewrites=[Rw("R6", r"\bf32\b", "F64")], props=["C07", "C13", "C11"],
+           rewrites=[K.AORD(1), Rw("R6", r"(\w+) as f32", r"F64::from_u64(\1)", count="any"), RwFn("R6", r6_float_literals, count=None)],
+           ensures=[("C07-C13-fraction-in-unit-interval", "0real <= r.r() <= 1real"),
+                    ("C07-C13-fraction-unknown-length-zero", "self.len is None ==> r.r() == 0real"),
+                    ("C07-C13-fraction-zero-length-one", "self.len == Some(0u64) ==> r.r() == 1real"),
+                    ("C07-C13-fraction-position-zero", "self.pos.pos@ == 0 && self.len != Some(0u64) ==> r.r() == 0real"),
+                    ("C07-C13-fraction-full-iff-complete", "self.len matches Some(l) ==> (l > 0 ==> (r.r() == 1real <==> self.pos.pos@ >= l))"),
+                    ("C07-C13-fraction-is-the-quotient", "self.len matches Some(l) ==> (l > 0 && self.pos.pos@ <= l ==> r.r() == self.pos.pos@ as real / l as real)")],
+           proofs=[("@start", "after", """        proof {
+            if self.len is Some { let l = self.len.unwrap(); if l > 0 {
+                let p = self.pos.pos@ as real; let q = l as real;
+                assert(p / q >= 0real) by (nonlinear_arith) requires p >= 0real, q > 0real;
+                assert((p / q >= 1real) == (p >= q)) by (nonlinear_arith) requires q > 0real;
+                assert((p / q == 1real) == (p == q)) by (nonlinear_arith) requires q > 0real;
+                assert(0real / q == 0real) by (nonlinear_arith) requires q > 0real;
+            } }
+        }""")]),
     ],
 )
